@@ -116,8 +116,11 @@ def witnesses(run, sc):
     # the special floating-point values (NaN, the infinities, -0.0, subnormals), scalar and in lists, are values like any other
     specials = ["nan", "inf", "-inf", "-0.0", "5e-324", "1.7976931348623157e+308"]
     for rnd in range(2):
-        g, _ = W.gen_closed(rng, hostile=False, n_ns=1, n_nodes=9)
-        vs = [k for k in g["order"] if g["nodes"][k]["cls"] == "UAVariable"]
+        for _try in range(20):           # a set with at least three variables
+            g, _ = W.gen_closed(rng, hostile=False, n_ns=1, n_nodes=9)
+            vs = [k for k in g["order"] if g["nodes"][k]["cls"] == "UAVariable"]
+            if len(vs) >= 3:
+                break
         for j, k in enumerate(vs):
             t = "Double" if (j + rnd) % 2 == 0 else "Float"
             sp = specials[(j + rnd) % len(specials)]
